@@ -32,7 +32,7 @@ def norm(t):
 
 def norm_cons(cons, rel=False):
     """Constraint store with normalised keys; the derived ordering facts ('rel', a, b) are left out unless asked for."""
-    return {norm(k): v for k, v in cons.items() if rel or k[0] != "rel"}
+    return {norm(k): v for k, v in cons.items() if rel or k[0] not in ("rel", "bnd")}
 
 
 def find_from_impl(prog, self_adt, arg_prefix):
